@@ -321,7 +321,7 @@ func scenOptGrid(st *ekit.Stats, tier string) {
 		})
 	}
 	// observation only: req / surveyor without --data send an empty request
-	for _, pat := range []txPattern{{"req", "--req", rep.NewSocket, false}, {"surveyor", "--surveyor", respondent.NewSocket, false}} {
+	for _, pat := range []txPattern{{"req", "--req", rep.NewSocket, false, ""}, {"surveyor", "--surveyor", respondent.NewSocket, false, ""}} {
 		pat := pat
 		jobs = append(jobs, func() {
 			r := runTx(txCase{pat: pat, src: "none", n: 1, extra: []string{"--recv-timeout", "1"}})
@@ -455,9 +455,9 @@ func scenDurations(st *ekit.Stats, tier string) {
 			extra []string
 		}
 		pcs := []pc{
-			{"recv-timeout:pull:silent-peer", txPattern{"pull", "--pull", push.NewSocket, false}, 0, []string{"--recv-timeout", v}},
-			{"send-delay:push:peer", txPattern{"push", "--push", pull.NewSocket, false}, 1, []string{"--send-delay", v}},
-			{"send-interval:push:peer:count2", txPattern{"push", "--push", pull.NewSocket, false}, 2, []string{"--send-interval", v, "--count", "2"}},
+			{"recv-timeout:pull:silent-peer", txPattern{"pull", "--pull", push.NewSocket, false, ""}, 0, []string{"--recv-timeout", v}},
+			{"send-delay:push:peer", txPattern{"push", "--push", pull.NewSocket, false, ""}, 1, []string{"--send-delay", v}},
+			{"send-interval:push:peer:count2", txPattern{"push", "--push", pull.NewSocket, false, ""}, 2, []string{"--send-interval", v, "--count", "2"}},
 		}
 		for _, c := range pcs {
 			c := c
